@@ -393,7 +393,7 @@ def finish(prop, tier, level, merged, t0, rule, assumptions, extra_cov=None, rep
                 hit = o
                 break
         (known if hit else new).append((sig, v, hit))
-    vdir = os.path.join(VERIF, "violations")
+    vdir = os.environ.get("VERIF_VIOLATIONS_DIR") or os.path.join(VERIF, "violations")
     os.makedirs(vdir, exist_ok=True)
     for f in glob.glob(os.path.join(vdir, prop + "_*.json")):
         os.unlink(f)
@@ -420,11 +420,12 @@ def finish(prop, tier, level, merged, t0, rule, assumptions, extra_cov=None, rep
     cov["violation_signatures"] = [s for s, _, _ in new]
     ev = {"property_id": prop, "tier": tier, "seed": seed, "level": level, "coverage": cov,
           "assumptions": assumptions, "wall_s": round(time.time() - t0, 2), "violations": len(new)}
-    os.makedirs(os.path.join(VERIF, "evidence"), exist_ok=True)
-    tmp = os.path.join(VERIF, "evidence", prop + ".json.tmp")
+    evdir = os.environ.get("VERIF_EVIDENCE_DIR") or os.path.join(VERIF, "evidence")   # mutation experiments keep /verif/evidence clean
+    os.makedirs(evdir, exist_ok=True)
+    tmp = os.path.join(evdir, prop + ".json.tmp")
     with open(tmp, "w") as f:
         json.dump(ev, f, indent=1, sort_keys=True)
-    os.rename(tmp, os.path.join(VERIF, "evidence", prop + ".json"))
+    os.rename(tmp, os.path.join(evdir, prop + ".json"))
     wd = merged.get("workdir")
     if wd and rc == 0:
         shutil.rmtree(wd, ignore_errors=True)
